@@ -1607,6 +1607,12 @@ KERNELS = [
      {"as": "decimal_checked_div_int", "macro": ("impl_div_decimal_and_int", 1, None, {"$t": "i64"}), "occ": 0, "ret": ("Option", "Decimal")}),
     ("KIntOps", "src/binops/checked_div.rs", "checked_div", "i64",
      {"as": "int_checked_div_decimal", "macro": ("impl_div_decimal_and_int", 1, None, {"$t": "i64"}), "occ": 1, "ret": ("Option", "Decimal")}),
+    ("KIntOps", "src/binops/div_rounded.rs", "div_rounded", "Decimal",
+     {"as": "decimal_div_rounded_int", "macro": ("impl_div_rounded_decimal_and_int", 1, None, {"$t": "i64"}), "occ": 0, "ret": "Decimal"}),
+    ("KIntOps", "src/binops/div_rounded.rs", "div_rounded", "i64",
+     {"as": "int_div_rounded_decimal", "macro": ("impl_div_rounded_decimal_and_int", 1, None, {"$t": "i64"}), "occ": 4, "ret": "Decimal"}),
+    ("KIntOps", "src/binops/div_rounded.rs", "div_rounded", "i64",
+     {"as": "int_div_rounded_int", "macro": ("impl_div_rounded_int_and_int", 1, None, {"$t": "i64"}), "occ": 0, "ret": "Decimal"}),
     ("KForward", "src/binops/mod.rs", "$method", "Decimal",
      {"as": "ref_add_val", "macro": ("forward_ref_binop", 0, None, {"$imp": "Add", "$method": "add"}), "occ": 0, "ret": "Decimal"}),
     ("KForward", "src/binops/mod.rs", "$method", "Decimal",
